@@ -179,6 +179,36 @@ func genTruncSeq(t *rapid.T) Msg {
 		}
 		return m
 	}
+	if rapid.IntRange(0, 2).Draw(t, "shInner") == 0 {
+		// a parameter set cut short INSIDE a configuration record whose own length fields are consistent: the record
+		// parses, the parameter-set parsers (resolution for the statistics / SDP) get the truncated unit
+		m.Class = "trunc-seqhdr/" + kind + "-inner"
+		v := rapid.IntRange(0, 2).Draw(t, "innerVariant")
+		cutMin := func(b []byte, label string, min int) []byte {
+			if rapid.IntRange(0, 2).Draw(t, label+"Keep") == 0 {
+				return b
+			}
+			c := append([]byte(nil), b[:rapid.IntRange(min, len(b)-1).Draw(t, label)]...)
+			if rapid.Bool().Draw(t, label+"Cap") {
+				// the bit pattern at the very end decides where a bit-level parser runs out of data
+				c = append(c, rapid.SampledFrom([]byte{0xff, 0xff, 0x7f, 0x7f, 0x01, 0x03, 0x80, 0x00}).Draw(t, label+"CapByte"))
+			}
+			return c
+		}
+		cut := func(b []byte, label string) []byte { return cutMin(b, label, 1) }
+		switch kind {
+		case "avc":
+			_, sps, pps := gen.ParamSets("avc", v)
+			m.Raw = append([]byte{0x17, 0, 0, 0, 0}, gen.AvcSeqHeaderBody(cutMin(sps, "cutSps", 4), cut(pps, "cutPps"))...)
+		case "hevc":
+			vps, sps, pps := gen.ParamSets("hevc", v)
+			m.Raw = append([]byte{0x1c, 0, 0, 0, 0}, gen.HevcSeqHeaderBody(cut(vps, "cutVps"), cut(sps, "cutSps"), cut(pps, "cutPps"))...)
+		default:
+			vps, sps, pps := gen.ParamSets("hevc", v)
+			m.Raw = append([]byte{0x90, 'h', 'v', 'c', '1'}, gen.HevcSeqHeaderBody(cut(vps, "cutVps"), cut(sps, "cutSps"), cut(pps, "cutPps"))...)
+		}
+		return m
+	}
 	op := rapid.IntRange(0, 2).Draw(t, "shOp")
 	if op == 0 || op == 2 {
 		if rapid.Bool().Draw(t, "truncEdge") {
